@@ -112,6 +112,26 @@ def run(R, tier):
                 if not same(l, r):
                     viol('index-commutes', f'(X {sym} Y)[{idx}] != X[{idx}] {sym} Y[{idx}] in Algebra({algs.describe(spec)}), shape {shape}, {container}',
                          algebra=spec, op=sym, index=str(idx), keys=[ka, kb])
+        # 1b. an array of elements combined with ONE element (number coefficients, as a list or as a 1-D array), also when the number
+        #     of elements equals the number of stored blades (a square coefficient array): every element is combined with that element
+        kq = rng.sample(canon, rng.randint(2, min(4, len(canon))))
+        for n_el in (len(kq), len(kq) + 1):
+            Xq = MultiVector.fromkeysvalues(alg, tuple(kq), np.array([[float(rng.randint(-9, 9)) for _ in range(n_el)] for _ in kq]))
+            one_vals = [float(rng.randint(-9, 9)) for _ in kq]
+            for one_kind in ('list', 'ndarray'):
+                One = MultiVector.fromkeysvalues(alg, tuple(kq), list(one_vals) if one_kind == 'list' else np.array(one_vals))
+                for sym in ('+', '-', '*'):
+                    R.count('clause=array-with-one-element'); R.case(('arr-one', algs.describe(spec), sym, tuple(kq), n_el, one_kind), True)
+                    for side in ('left', 'right'):
+                        try:
+                            res = PY[sym](Xq, One) if side == 'left' else PY[sym](One, Xq)
+                            ok = all(same(items(res[i]), items(PY[sym](Xq[i], One) if side == 'left' else PY[sym](One, Xq[i]))) for i in range(n_el))
+                        except Exception as e:  # noqa
+                            viol('array-op-raises', f'array of {n_el} elements {sym} one element ({one_kind} coefficients) raised {type(e).__name__}: {e}'[:300], algebra=spec, op=sym)
+                            continue
+                        if not ok:
+                            viol('index-commutes', f'(X {sym} y)[i] != X[i] {sym} y for an array X of {n_el} elements on {len(kq)} blades ({side}: the array) and a single element y '
+                                                   f'with {one_kind} coefficients in Algebra({algs.describe(spec)})', algebra=spec, op=sym, keys=[kq], index='all')
         for opname in rng.sample(UNARY, 3):
             # the three public forms in turn: alg.op(X), the method X.op(), the prefix operator where there is one
             form = rng.choice(['alg', 'method', 'prefix'])
